@@ -29,44 +29,6 @@ pub struct Scenario {
   pub audit_every: u32,
 }
 
-fn scenario(prop: &str, ctx: &Ctx, rng: &mut Rng) -> Scenario {
-  let thorough = ctx.thorough();
-  let blocks = if thorough { rng.range(120, 400) as u32 } else { rng.range(40, 110) as u32 };
-  let mut gencfg = GenCfg::default();
-  let mut index = IndexCfg::from_bits(0);
-  index.commit_interval = Some(*rng.pick(&[1usize, 2, 3, 7, 5000]));
-  let mut audit_every = *rng.pick(&[1u32, 1, 1, 2, 3, 5]);
-  let p: &'static str = match prop {
-    "C01" => "C01",
-    "C02" => "C02",
-    "C17" => "C17",
-    other => panic!("chain engine does not serve {other}"),
-  };
-  match p {
-    "C01" | "C02" => {
-      index.sats = true;
-      index.inscriptions = rng.chance(1, 3);
-      index.addresses = rng.chance(1, 3);
-      index.runes = rng.chance(1, 4);
-      index.transactions = rng.chance(1, 4);
-      gencfg.dup_coinbase_permille = if rng.chance(1, 2) { 60 } else { 0 };
-      if p == "C02" && !thorough {
-        audit_every = audit_every.max(2);
-      }
-    }
-    "C17" => {
-      index.addresses = true;
-      index.sats = rng.chance(1, 3);
-      index.inscriptions = rng.chance(1, 3);
-      index.runes = rng.chance(1, 4);
-    }
-    _ => {}
-  }
-  gencfg.max_txs = *rng.pick(&[3usize, 6, 10]);
-  gencfg.maturity = if thorough && rng.chance(1, 5) { 100 } else { 1 };
-  Scenario { prop: p, gencfg, index, network: Network::Regtest, blocks, audit_every }
-}
-
 pub struct Run<'a> {
   pub sc: &'a Scenario,
   pub node: Node,
@@ -76,6 +38,8 @@ pub struct Run<'a> {
   pub replay: serde_json::Value,
 }
 
+pub use super::chain_driver::run;
+
 fn hexs(b: &[u8]) -> String {
   b.iter().map(|x| format!("{x:02x}")).collect()
 }
@@ -84,7 +48,7 @@ fn hexs(b: &[u8]) -> String {
 
 /// C01: sat ranges of every unspent output and of the lost-sats output are
 /// exactly those of the BIP algorithm; nothing else is listed.
-fn audit_c01(run: &Run, rep: &mut Report) {
+pub fn audit_c01(run: &Run, rep: &mut Report) {
   let utxos = match run.index.verif_utxos() {
     Ok(u) => u,
     Err(e) => {
@@ -153,7 +117,7 @@ fn audit_c01(run: &Run, rep: &mut Report) {
 }
 
 /// C02: partition of the mined sats; all sat lookups agree with the table.
-fn audit_c02(run: &Run, rng: &mut Rng, rep: &mut Report) {
+pub fn audit_c02(run: &Run, rng: &mut Rng, rep: &mut Report) {
   let utxos = match run.index.verif_utxos() {
     Ok(u) => u,
     Err(e) => {
@@ -377,7 +341,7 @@ fn audit_c02(run: &Run, rng: &mut Rng, rep: &mut Report) {
 }
 
 /// C17: the address index lists exactly the unspent outputs of each script.
-fn audit_c17(run: &Run, rep: &mut Report) {
+pub fn audit_c17(run: &Run, rep: &mut Report) {
   let h = run.model.height();
   let pairs = match run.index.verif_address_index() {
     Ok(p) => p,
@@ -444,113 +408,3 @@ fn audit_c17(run: &Run, rep: &mut Report) {
   rep.count("audits");
 }
 
-// ------------------------------------------------------------------ driver
-
-pub fn run(ctx: &Ctx, rep: &mut Report) {
-  let prop = ctx.prop.clone();
-  for case in ctx.cases(u64::MAX) {
-    let mut rng = ctx.rng(case);
-    let sc = scenario(&prop, ctx, &mut rng);
-    let replay = json!({"replay": ctx.replay_info(case), "scenario": {"index": sc.index.label(), "blocks": sc.blocks, "audit_every": sc.audit_every, "dup_coinbase_permille": sc.gencfg.dup_coinbase_permille}});
-    let dir = std::path::PathBuf::from(format!("{}/case{}", if ctx.scratch.is_empty() { "/tmp/verif-scratch".to_string() } else { ctx.scratch.clone() }, case));
-    let _ = std::fs::remove_dir_all(&dir);
-    std::fs::create_dir_all(&dir).unwrap();
-    let node = Node::new(sc.network);
-    let index = match sc.index.open(&node, &dir) {
-      Ok(i) => i,
-      Err(e) => {
-        rep.inconclusive(format!("cannot open index: {e:#}"));
-        continue;
-      }
-    };
-    let mut model = Model::new();
-    model.apply_block(&node.block_at(0).unwrap());
-    let bgen = Gen::new(sc.gencfg.clone());
-    let mut run = Run { sc: &sc, node, model, bgen, index, replay };
-    rep.seen("index_configs", sc.index.label());
-    let mut shape = (0u64, 0u64, 0u64, 0u64); // txs, same-block spends, multi-output coinbases, duplicates
-    let mut failed = false;
-    for step in 1..=sc.blocks {
-      let height = run.model.height();
-      let txdata = run.bgen.block(&mut rng, &run.model, height);
-      shape.0 += txdata.len() as u64 - 1;
-      if txdata[0].output.len() > 1 {
-        shape.2 += 1;
-      }
-      let ids: BTreeSet<_> = txdata.iter().map(|t| t.compute_txid()).collect();
-      shape.1 += txdata.iter().skip(1).flat_map(|t| t.input.iter()).filter(|i| ids.contains(&i.previous_output.txid)).count() as u64;
-      for (i, t) in txdata.iter().enumerate() {
-        let claimed: u64 = t.output.iter().map(|o| o.value.to_sat()).sum();
-        rep.distinct(&(
-          "tx",
-          i == 0,
-          t.input.len().min(5),
-          t.output.len().min(5),
-          t.output.iter().any(|o| o.script_pubkey.is_op_return()),
-          t.output.iter().any(|o| o.value.to_sat() == 0),
-          t.input.iter().filter(|inp| ids.contains(&inp.previous_output.txid)).count().min(3),
-          t.input.iter().any(|inp| !inp.witness.is_empty()) && i > 0,
-          if i == 0 { (claimed == 0) as u8 + 2 * (claimed < sats::subsidy(height)) as u8 } else { 0 },
-        ));
-      }
-      let displaced_before = run.model.sats.displaced_outputs;
-      let block = run.node.push_block(txdata);
-      run.model.apply_block(&block);
-      if run.model.sats.displaced_outputs > displaced_before {
-        shape.3 += 1;
-        rep.count("blocks_with_displacing_duplicate");
-      }
-      rep.count("blocks");
-      rep.add("transactions", block.txdata.len() as u64);
-      if step % sc.audit_every != 0 && step != sc.blocks {
-        continue;
-      }
-      match catch(|| run.index.update()) {
-        Ok(Ok(())) => {}
-        Ok(Err(e)) => {
-          rep.violation(&format!("{}/update-error", sc.prop), format!("height {height}: update() returned {e:#}"), run.replay.clone());
-          failed = true;
-        }
-        Err(p) => {
-          rep.violation(&format!("{}/update-panic/{}", sc.prop, panic_signature(&p)), format!("height {height}: update() panicked: {p}"), run.replay.clone());
-          failed = true;
-        }
-      }
-      if failed {
-        break;
-      }
-      match run.index.block_count() {
-        Ok(c) if c == run.model.height() => {}
-        other => {
-          rep.inconclusive(format!("index height {other:?} != chain height {}", run.model.height()));
-          failed = true;
-          break;
-        }
-      }
-      match sc.prop {
-        "C01" => audit_c01(&run, rep),
-        "C02" => audit_c02(&run, &mut rng, rep),
-        "C17" => audit_c17(&run, rep),
-        _ => unreachable!(),
-      }
-      if !ctx.time_left() && ctx.only_case.is_none() {
-        break;
-      }
-    }
-    rep.distinct(&(sc.index.label(), shape.0.min(40), shape.1.min(10), shape.2.min(10), shape.3.min(5), run.model.sats.lost.len().min(20)));
-    if rep.want_sample() {
-      let last = run.model.blocks.last().unwrap();
-      rep.sample(json!({
-        "index": sc.index.label(),
-        "blocks": run.model.height(),
-        "utxos": run.model.sats.utxos.len(),
-        "lost_ranges": run.model.sats.lost.len(),
-        "destroyed_ranges": run.model.sats.destroyed.len(),
-        "last_block": {"txs": last.txdata.len(), "coinbase_outputs": last.txdata[0].output.iter().map(|o| o.value.to_sat()).collect::<Vec<_>>(), "first_tx": last.txdata.get(1).map(|t| bitcoin::consensus::encode::serialize_hex(t))},
-      }));
-    }
-    drop(run);
-    let _ = std::fs::remove_dir_all(&dir);
-    let _ = failed;
-  }
-}
